@@ -11,9 +11,11 @@ that point/peer at most and keeps processing subsequent points; the process and 
 unaffected.
 
 A panic is the explicit outcome `trap` / `propagates` of every model, a hang is `fuel`.
-What is NOT proved (stated as `…_stmt`, searched by the child-process harness only): the reflection-driven
-`tick.Evaluate` never raises a run-time error; the parser model finishes within the depth the driver gives
-it (`parser_terminates_stmt`); see checks/C05.json.
+Nothing is left as a stated-only `…_stmt`. What is ASSUMED rather than proved is explicit in the statements:
+`evaluate_never_panics` takes the answers of the library calls `eval` makes outside the closure of `evalFunc`
+(`stateful.NewExpression` / `expr.Eval`, the property read path of `evalChain`) as inputs that are not
+panics; node implementations and pipeline construction behind the reflective calls are not modelled (their
+panics are inputs, shown to become errors); see checks/C05.json.
 -/
 import Kap.Proofs.C05
 import Kap.Proofs.C05Udf
@@ -24,6 +26,9 @@ import Kap.Proofs.C05Typ
 import Kap.Proofs.C05Json
 import Kap.Proofs.C05Len
 import Kap.Proofs.C05Parse
+import Kap.Proofs.C05Pos
+import Kap.Proofs.C05PTerm
+import Kap.Proofs.C05Eval
 import Kap.Spec.C05
 import Kap.Gen.C05
 namespace Kap.Props.C05
@@ -310,11 +315,61 @@ theorem parser_model_traps_outside_invariant :
     (parseToks ⟨{ inp := [0x22], cls := Cls.none }, exLit⟩ 9 [⟨tDBRP, 0, 0⟩, ⟨tReference, 0, 1⟩]).out = .trap ∧
     (pnext (pbackup (pbackup (pbackup { rest := [] })))).out = .trap := by decide
 
-/-- Stated, not proved: the depth the driver gives the model (`parseDepth` = 8·len + 16) is enough for every
-input, i.e. the model's verdict is never `fuel` (each production consumes a token within a bounded number of
-calls). The driver reports a `fuel` verdict as a MISMATCH, so this is checked on every enumerated string. -/
-def parser_terminates_stmt : Prop :=
-  ∀ e : PEnv, e.c.fixed = true → parseScript e (parseDepth e) ≠ .fuel ∧ parseLambda e (parseDepth e) ≠ .fuel
+/-- **No empty token**: every token the scanner emits that carries text and is not the EOF token has at least
+one byte (a seventh pass over the state functions) … -/
+theorem lexer_tokens_nonempty (c : Ctx) (hf : c.fixed = true) (toks : List Tok) (h : lexRun c = .done toks) :
+    ∀ t ∈ toks, t.typ ≠ tEOF → t.len ≠ none → 1 ≤ tlen t :=
+  Kap.C05.lexer_tokens_nonempty c hf toks h
+
+/-- … hence a script of `n` bytes yields at most `n + 1` tokens (disjoint non-empty slices, then the single
+terminal token). -/
+theorem lexer_token_count (c : Ctx) (hf : c.fixed = true) (toks : List Tok) (h : lexRun c = .done toks) :
+    toks.length ≤ c.inp.length + 1 :=
+  Kap.C05.lexer_token_count c hf toks h
+
+example : lexRun { inp := [0x61, 0x2E], cls := Cls.none } = .done [⟨tIdent, 0, some 1⟩, ⟨tDot, 1, some 1⟩, ⟨tEOF, 2, some 0⟩] := by
+  decide
+
+/-- **Enough depth never runs out**, on ANY token stream satisfying the parser's invariant: a recursion depth of
+`2·(number of tokens) + 4` (`+ 3` for a lambda) is never exhausted — every production consumes a token of
+non-zero type within a bounded number of nested calls (measure: the pending tokens of non-zero type; offsets
+per production; the inner precedence loop needs that `precedence` entered on an operator of sufficient
+precedence consumes it). -/
+theorem parser_depth_suffices_on_streams (e : PEnv) (k : Nat) (toks : List PTok) (h : Inv e { rest := toks })
+    (hk : 2 * toks.length + 4 ≤ k) :
+    (parseToks e k toks).out ≠ .fuel ∧ (parseLambdaToks e k toks).out ≠ .fuel :=
+  ⟨parseToks_nofuel' e k toks h hk, parseLambdaToks_nofuel' e k toks h (by omega)⟩
+
+/-- **parser_terminates**: the depth the driver gives the model (`parseDepth` = 8·len + 16) is enough for EVERY
+byte string, class oracle and literal-library verdict: the model's verdict on `ast.Parse` and
+`ast.ParseLambda` is never `fuel` — with `parser_never_panics` it is `ok` or `err`. -/
+theorem parser_terminates (e : PEnv) (hf : e.c.fixed = true) :
+    parseScript e (parseDepth e) ≠ .fuel ∧ parseLambda e (parseDepth e) ≠ .fuel := by
+  obtain ⟨toks, h⟩ := lexer_total e.c hf
+  have hi := lexer_stream_meets_parser_invariant e hf toks h
+  have hc := lexer_token_count e.c hf toks h
+  have hl : (pstream toks).length ≤ toks.length := by
+    simp only [pstream, List.length_map]; exact List.length_filter_le _ _
+  have hk : 2 * (pstream toks).length + 4 ≤ parseDepth e := by unfold parseDepth; omega
+  simp only [parseScript, parseLambda, h]
+  exact parser_depth_suffices_on_streams e _ _ hi hk
+
+/-- … so the parser model decides every script: `ok` or `err`. -/
+theorem parser_decides (e : PEnv) (hf : e.c.fixed = true) :
+    (parseScript e (parseDepth e) = .ok ∨ parseScript e (parseDepth e) = .err) ∧
+    (parseLambda e (parseDepth e) = .ok ∨ parseLambda e (parseDepth e) = .err) := by
+  obtain ⟨t1, t2⟩ := parser_never_panics e hf (parseDepth e)
+  obtain ⟨f1, f2⟩ := parser_terminates e hf
+  constructor
+  · cases h : parseScript e (parseDepth e) <;> simp_all
+  · cases h : parseLambda e (parseDepth e) <;> simp_all
+
+/-- Non-vacuity: the depth matters — with depth 1 the model does run out on `a`. -/
+theorem parser_model_runs_out_of_small_depth :
+    parseScript ⟨{ inp := [0x61], cls := Cls.none }, exLit⟩ 1 = .fuel := by decide
+
+example : parseScript ⟨{ inp := [], cls := Cls.none }, exLit⟩ (parseDepth ⟨{ inp := [], cls := Cls.none }, exLit⟩) = .ok := by
+  decide
 
 /-- What the shape does give: exactly the run-time errors and non-error panic values get through. -/
 theorem parser_recover_characterised (v : PanicVal) :
@@ -352,17 +407,106 @@ reviewed sites (a new one breaks this; review notes, not proofs). In particular 
 assertion in the evaluator. -/
 theorem eval_sites_reviewed : ∀ s ∈ Gen.evalSliceSites, evalSiteReviewed s = true := by decide
 
-/-- Full strength: `tick.Evaluate` never panics. NOT proved. Established: a panic inside a reflective call
-becomes an error (`reflective_call_panic_becomes_error`); `ErrEmptyStack` — the only explicit panic of the
-stack — becomes an error anywhere; every slice / index site of eval.go and stack.go is reviewed and there is
-no unchecked type assertion (`eval_sites_reviewed`). Exactly what is ASSUMED: outside the reflective calls
-`eval` raises no run-time error other than through the reviewed sites, i.e. (a) the reviewed index sites
-hold (loop indexes, length-guarded, map accesses), (b) no nil `ast.Node`/interface method call and no
-reflection call (`reflect.Value.Interface`, `reflect.ValueOf(...).Kind`) on a zero Value happens in
-`evalChain`'s property READ path and in `NewReflectionDescriber` when reached outside `evalFunc` (one
-such defect was found and repaired, 7803d70), (c) `stateful.Scope` accessors do not panic. The harness
-searches this with scripts generated from the node API in child processes. -/
-def evaluate_never_panics_stmt : Prop := ∀ b : Body, ∃ e, runDeferred Gen.evaluate b = .returns e
+/-! ### The evaluator `tick.Evaluate` (Kap/Model/C05Eval.lean) -/
+
+section Evaluator
+open Kap.C05.Ev
+
+/-- The evaluator model's environment with the closure shape the SOURCE has (extracted): does the function
+value built by `evalFunc` start with `defer rec(obj, &err)`, and what does `rec` do. -/
+def srcEnv (refl lib : List OAns) (pre : List PVar) (ignoreMissing : Bool) : Env :=
+  { refl := refl, lib := lib, pre := pre, ignoreMissing := ignoreMissing,
+    defersRec := Gen.evalFuncDefersRec == some true, recShape := Gen.evalFuncRecover }
+
+/-- The hypothesis on the oracle, decidable: no library call `eval` makes OUTSIDE the closure of `evalFunc`
+(`stateful.NewExpression`, `expr.Eval`, the property read path of `evalChain`) answers with a panic. -/
+def libCallsReturn (lib : List OAns) : Bool := lib.all fun a => match a with | .panic _ => false | _ => true
+
+theorem src_env_protected (refl lib : List OAns) (pre : List PVar) (im : Bool) (hlib : libCallsReturn lib = true) :
+    Prot (srcEnv refl lib pre im) :=
+  ⟨by show (Gen.evalFuncDefersRec == some true) = true; decide,
+   fun v => ⟨true, by show runDeferred Gen.evalFuncRecover (.panics v) = .returns true; cases v <;> decide⟩, hlib⟩
+
+/-- **evaluate_no_trap**: for EVERY tree (not only those the parser builds), scope, predefined vars,
+`ignoreMissingVars`, and every oracle — reflective calls that return a value, fail or PANIC with any value,
+library calls that return a value or fail — the evaluator model never reaches a run-time panic: every
+`stck.data[l]` / `data[:l]` is behind the empty check, `nodes[i]` / `args[i]` stay below `len`, `args[0]` is
+behind `len(args) == 1`, the `list[i]` / `values[i]` copy loops and the `node.Args[i]` / `node.Nodes[i]` range
+writes stay in range, and a panic inside the function value of `evalFunc` is turned into an error by its
+deferred `rec` (shape extracted from the source). -/
+theorem evaluate_no_trap (refl lib : List OAns) (pre : List PVar) (im : Bool) (root : Ast)
+    (scope : List (String × Val)) (hlib : libCallsReturn lib = true) :
+    (evalTop (srcEnv refl lib pre im) root scope).out ≠ .trap := by
+  intro h
+  exact eval_nt (src_env_protected refl lib pre im hlib) root _ (R.out_trap.mp h)
+
+/-- **evaluate_never_panics**: … hence, over the extracted shape of the deferred closure of `tick.Evaluate`,
+evaluating any tree RETURNS (a result or an error): nothing is re-panicked into `CreatePipeline` /
+`TaskMaster.NewTask`. ASSUMED (the hypothesis): the library calls outside the closure return. Not modelled:
+what the node API does behind the reflective calls — its panics are inputs here (`OAns.panic`), and become
+errors. -/
+theorem evaluate_never_panics (refl lib : List OAns) (pre : List PVar) (im : Bool) (root : Ast)
+    (scope : List (String × Val)) (hlib : libCallsReturn lib = true) :
+    ∃ e, runDeferred Gen.evaluate (body (evalTop (srcEnv refl lib pre im) root scope)) = .returns e := by
+  have h := evaluate_no_trap refl lib pre im root scope hlib
+  cases hr : evalTop (srcEnv refl lib pre im) root scope with
+  | ok a s => exact ⟨false, by show runDeferred Gen.evaluate (.ret false) = .returns false; decide⟩
+  | err => exact ⟨true, by decide⟩
+  | empty => exact ⟨true, by decide⟩
+  | trap => rw [hr] at h; exact absurd rfl h
+
+/-- **Stack discipline** (pops never exceed pushes): on a tree of the shape `parser.program` builds — a
+`ProgramNode` of statements; declarations only at statement level; the children of unary, chain, list and
+function nodes are expressions; unary operators are `-` / `!` — the evaluator NEVER pops the empty stack, for
+every environment and oracle (no hypothesis): `ErrEmptyStack` is unreachable from a parsed script. The driver
+checks on every run that the AST the real parser returned has this shape. -/
+theorem evaluate_stack_discipline (E : Env) (root : Ast) (scope : List (String × Val))
+    (h : parserShaped root = true) : (evalTop E root scope).out ≠ .empty := by
+  intro he
+  exact evalTop_ne E root scope h (R.out_empty.mp he)
+
+/-- The invariant behind it: evaluating an expression node that succeeds leaves EXACTLY one more value on the
+stack, whatever the stack, scope and oracle. -/
+theorem expression_pushes_one (E : Env) (a : Ast) (s s' : Ev.St) (u : Unit) (h : isExpr a = true)
+    (hr : eval E a s = .ok u s') : s'.stk.length = s.stk.length + 1 := by
+  have := eval_expr_dp E a s h
+  rw [hr] at this
+  exact this
+
+/-- Non-vacuity: `var x = 1` / `var y = -x` / `f(y)` on an empty scope: two declarations succeed, the
+global function is not defined (an error, no oracle consulted). -/
+example : (evalTop (srcEnv [] [] [] false)
+    (.program (.cons (.decl "x" (.lit .int)) (.cons (.decl "y" (.unary tMinus (.ident "x"))) .nil))) []).out = .ok := by
+  decide
+example : (evalTop (srcEnv [] [] [] false)
+    (.program (.cons (.decl "x" (.lit .int)) (.cons (.func .global "f" (.cons (.ident "x") .nil)) .nil))) []).out = .err := by
+  decide
+
+/-- Counterexample for the CLASS (the closure shape matters): without the `defer rec(…)` a panic inside the
+reflective call of a global function `f()` leaves `tick.Evaluate` as a run-time panic. -/
+theorem unprotected_closure_traps :
+    (evalTop { refl := [.panic .runtimeErr], lib := [], defersRec := false, recShape := Gen.evalFuncRecover }
+      (.program (.cons (.func .global "f" .nil) .nil)) [("f", .other)]).out = .trap ∧
+    (evalTop (srcEnv [.panic .runtimeErr] [] [] false)
+      (.program (.cons (.func .global "f" .nil) .nil)) [("f", .other)]).out = .err := by
+  decide
+
+/-- Counterexample (the hypothesis is needed; the class of defect 7803d70): a panic of a library call OUTSIDE
+the closure — here while the property `x.y` is read — is re-panicked by `tick.Evaluate`. -/
+theorem lib_panic_propagates :
+    runDeferred Gen.evaluate (body (evalTop (srcEnv [] [.panic .runtimeErr] [] false)
+      (.program (.cons (.chain (.ident "x") (.ident "y")) .nil)) [("x", .other)])) = .propagates .runtimeErr := by
+  decide
+
+/-- Counterexample (the shape is needed): a tree the parser never builds — a chain whose left operand is a
+type declaration — pops the empty stack; `tick.Evaluate` turns exactly this panic into an error. -/
+theorem unshaped_tree_pops_empty_stack :
+    (evalTop (srcEnv [] [] [] true) (.program (.cons (.chain (.typeDecl "x" "int") (.ident "y")) .nil)) []).out = .empty ∧
+    runDeferred Gen.evaluate (body (evalTop (srcEnv [] [] [] true)
+      (.program (.cons (.chain (.typeDecl "x" "int") (.ident "y")) .nil)) [])) = .returns true := by
+  decide
+
+end Evaluator
 
 /-! ### The UDF peer -/
 
